@@ -40,6 +40,7 @@ class LIBCELLML_EXPORT Variable: public NamedEntity
 #endif
 {
     friend class Component;
+    friend class Model;
 
 public:
     ~Variable() override; /**< Destructor, @private. */
